@@ -44,7 +44,15 @@ fn extra_line(rng: &mut Rng, h: &[Op], p: usize) -> (Vec<u8>, &'static str, Vec<
         text_bias: false,
         types: vec![],
     };
-    match rng.below(9) {
+    match rng.below(10) {
+        9 => {
+            // a valid fragment 1 with an unusual id or count: accepted by a correct parser
+            // (then the premise fails and nothing is judged); a parser that rejects it for
+            // some reason of its own must not have touched the open group
+            let id = *rng.pick(&[None, Some(0u8), Some(9), Some(10), Some(25), Some(100), Some(255)]);
+            let n = *rng.pick(&[2u8, 3, 9, 10, 100, 255]);
+            (make_line(ADDR, n, 1, id, b"A", b"15M", 0), "valid-opener", vec![])
+        }
         0 => (noise_line(rng), "noise", vec![Fault::Noise]),
         1 => {
             // unfragmented, decodable
